@@ -271,6 +271,8 @@ class Engine:
             return self.unknown_call(st, fn, args, kwargs)
         if type(fn).__name__ == 'SStrMethod':
             return fn.invoke(self, st, args, kwargs)
+        if type(fn).__name__ == 'Identity' and len(args) == 1:
+            return [(st, NORMAL, args[0])]
         if isinstance(fn, Closure):
             return self.call_closure(st, fn, args, kwargs, depth)
         if isinstance(fn, BoundClosure):
